@@ -67,7 +67,7 @@ func seedsFromGrammar(g grammar) []seed {
 	return out
 }
 
-func rfbHello() string { return "RFB 003.008\n\x01\x01" }
+func rfbHello() string { return "RFB 003.008\n\x01" }
 
 func rfbSetPixelFormat(bpp, depth, be, tc byte) string {
 	return string([]byte{0, 0, 0, 0, bpp, depth, be, tc, 0, 0x1f, 0, 0x1f, 0, 0x1f, 10, 5, 0, 0, 0, 0})
@@ -419,8 +419,10 @@ func runC01(c *core.Ctx) {
 			// nested constructed sequences with indefinite-free definite lengths: build inside-out up to the BER reader's limits
 			inner := []byte{0x02, 0x01, 0x01}
 			depthN := n
-			if depthN > 20000 {
-				depthN = 20000 // definite lengths: size grows linearly; keep the packet < 1 MiB
+			if depthN > 2000 {
+				// the BER library re-copies the encoded children at every level (quadratic in the
+				// nesting depth, but bounded): deeper definite-length nesting only measures that
+				depthN = 2000
 			}
 			for i := 0; i < depthN; i++ {
 				inner = berTLV(0x30, inner)
